@@ -9,7 +9,7 @@ LIMIT = 90.0
 RULE = ("connected triangle meshes (closed: polyhedra, tori, ellipsoids, some with flipped triangles; open: grids, Delaunay) and tet "
         "meshes (oriented, mirrored i.e. uniformly negative, mixed), all vertices used x k in 2..6 x lump; each with transformed copies: "
         "rotation+translation, reflection, vertex relabelling, element reordering, cyclic rotation, global flip (triangles), scaling "
-        "s in {0.37, 2.5, 40}; plus a second compute_shapedna on the SAME object after scaling its vertices in place. distinct = hash of "
+        "s in {0.37, 2.5, 40, 1e-6, 3e-7, 1e3} (small and large length units); plus a second compute_shapedna on the SAME object after scaling its vertices in place. distinct = hash of "
         "the case; non-trivial = k >= 3")
 TRUSTED = ["ARPACK is an oracle (C03); float power vol ** (2/3) is certified by cubing inside Coq"]
 ASSUMPTIONS = ["spectra compared at 1e-6 relative to the largest requested eigenvalue"]
@@ -65,7 +65,7 @@ def generate(rng, tier):
     for c in cases:
         n = len(c["v"])
         c.update({"k": rng.randint(2, max(2, min(6, n - 2))), "lump": rng.random() < 0.5, "vdtype": "float64", "tdtype": "int64",
-                  "tseed": rng.randrange(1 << 30), "scale": rng.choice([0.37, 2.5, 40.0]),
+                  "tseed": rng.randrange(1 << 30), "scale": rng.choice([0.37, 2.5, 40.0, 1e-6, 3e-7, 1e3]),
                   "other": [rng.uniform(0, 5) for _ in range(6)]})
     return cases
 
